@@ -519,8 +519,30 @@ func (env *CEnv) bin(e *CE) Term {
 	return Term{}
 }
 
+// strCat builds a right-nested concatenation (associativity by normalisation: no string theory needed).
 func strCat(a, b string) string {
+	if strings.HasPrefix(a, "(str_cat ") {
+		toks := sexpTokens(a)
+		// (str_cat X Y): split X and Y
+		i := 2
+		var xEnd int
+		if toks[i] == "(" {
+			xEnd = matchParen(toks, i)
+		} else {
+			xEnd = i
+		}
+		x := joinToks(toks[i : xEnd+1])
+		y := joinToks(toks[xEnd+1 : len(toks)-1])
+		return "(str_cat " + x + " " + strCat(y, b) + ")"
+	}
 	return "(str_cat " + a + " " + b + ")"
+}
+
+func joinToks(toks []string) string {
+	s := strings.Join(toks, " ")
+	s = strings.ReplaceAll(s, "( ", "(")
+	s = strings.ReplaceAll(s, " )", ")")
+	return s
 }
 
 func (env *CEnv) call(e *CE) Term {
@@ -588,6 +610,12 @@ func (env *CEnv) call(e *CE) Term {
 		return Term{S: "(bv2f_u " + a.S + ")", Sort: SF64}
 	case "float":
 		return env.coerceLit(arg(0), SF64)
+	case "f2s": // Go int64(float64 x)
+		return Term{S: "((_ fp.to_sbv 64) RTZ " + env.coerceLit(arg(0), SF64).S + ")", Sort: SBV64}
+	case "f2u": // Go uint64(float64 x)
+		return Term{S: "((_ fp.to_ubv 64) RTZ " + env.coerceLit(arg(0), SF64).S + ")", Sort: SBV64}
+	case "f32round": // float64(float32(x))
+		return Term{S: "((_ to_fp 11 53) RNE ((_ to_fp 8 24) RNE " + env.coerceLit(arg(0), SF64).S + "))", Sort: SF64}
 	case "isNaN":
 		return Term{S: "(fp.isNaN " + arg(0).S + ")", Sort: SBool}
 	case "isInf":
@@ -642,6 +670,28 @@ func (env *CEnv) call(e *CE) Term {
 		ks, vs := arraySorts(a.Sort)
 		k, v = env.coerceLit(k, ks), env.coerceLit(v, vs)
 		return Term{S: "(store " + a.S + " " + k.S + " " + v.S + ")", Sort: a.Sort}
+	case "unchanged":
+		// unchanged("modset"): every heap array / ghost of the named modset equals its old value
+		if env.old == nil || len(e.Args) != 1 || e.Args[0].Op != "str" {
+			cfail("unchanged(\"modset\") needs a two-state context")
+		}
+		items, ok := w.modsets[e.Args[0].Name]
+		if !ok {
+			cfail("unknown modset %s", e.Args[0].Name)
+		}
+		var cs []string
+		dummy := &Contract{PkgName: env.pkgName}
+		for _, it := range items {
+			hs, gs := f.resolveMod(dummy, it)
+			for _, h := range hs {
+				srt := w.heapSorts[h]
+				cs = append(cs, "(= "+f.heapTerm(env.st, h, srt)+" "+f.heapTerm(env.old, h, srt)+")")
+			}
+			for _, g := range gs {
+				cs = append(cs, "(= "+f.ghostTerm(env.st, g).S+" "+f.ghostTerm(env.old, g).S+")")
+			}
+		}
+		return Term{S: conj(cs), Sort: SBool}
 	case "mkslice":
 		// mkslice(len, arr)
 		l, a := env.coerceLit(arg(0), SInt), arg(1)
